@@ -2,6 +2,8 @@
 #include "common.hpp"
 #include "nmtools/array/eval/kernel_helper.hpp"
 #include "nmtools/array/ndarray.hpp"
+#include "nmtools/utility/unwrap.hpp"
+#include "nmtools/utility/has_value.hpp"
 using namespace ob;
 namespace na = nmtools::array;
 using ks = na::kernel_size<size_t>;
@@ -106,6 +108,38 @@ void ob_c13_assign_r1_maybe_output(float* __restrict out, const std::array<size_
 #define A1M(I,O) template void ob_c13_assign_r1_maybe<8,I,O>(float* __restrict, const std::array<size_t,1>&, const nmtools_maybe<na::ndarray_t<std::array<float,8>,std::array<size_t,1>>>&, const ks&, const ks&, const ks&); \
    template void ob_c13_assign_r1_maybe_output<8,I,O>(float* __restrict, const std::array<size_t,1>&, const na::ndarray_t<std::array<float,8>,std::array<size_t,1>>&, const ks&, const ks&, const ks&);
 A1M(1,0) A1M(2,0) A1M(5,6) A1M(7,3)
+// ---- operands and output rebuilt from raw (pointer, shape, dim) triples, as the device kernels do: the rebuilt array has the given shape
+//      and element (i,j[,k]) is the pointer's element at the row-major position (shapes pinned to small constants, data symbolic)
+template <size_t D0, size_t D1>
+void ob_c13_rebuild_2d(const long* data, const size_t* shape_ptr, long* out)
+{
+    ASSUME(shape_ptr[0] == D0 && shape_ptr[1] == D1);
+    { auto v = na::create_vector<2>(shape_ptr, 2);
+      OBLIGE("C13.rebuild.create_vector.length_and_entries", (size_t)nm::len(v) == 2 && (size_t)nm::at(v,0) == D0 && (size_t)nm::at(v,1) == D1, D0, D1); }
+    { auto ma = na::create_array<2>(data, shape_ptr, 2);
+      OBLIGE("C13.rebuild.create_array.has_value", nm::has_value(ma), D0, D1);
+      auto a = nm::unwrap(ma);
+      auto shp = nm::shape(a);
+      OBLIGE("C13.rebuild.create_array.shape_is_the_given_one", (size_t)nm::len(shp) == 2 && (size_t)nm::at(shp,0) == D0 && (size_t)nm::at(shp,1) == D1, D0, D1);
+      for_<D0>([&](auto I){ for_<D1>([&](auto J){ OBLIGE("C13.rebuild.create_array.element_is_the_row_major_position", (long)a(I.value, J.value) == data[I.value * D1 + J.value], D0, D1, I.value, J.value); }); }); }
+    { auto o = na::create_mutable_array<2>(out, shape_ptr, 2);
+      auto shp = nm::shape(o);
+      OBLIGE("C13.rebuild.create_mutable_array.shape_is_the_given_one", (size_t)nm::len(shp) == 2 && (size_t)nm::at(shp,0) == D0 && (size_t)nm::at(shp,1) == D1, D0, D1);
+      for_<D0>([&](auto I){ for_<D1>([&](auto J){ OBLIGE("C13.rebuild.create_mutable_array.element_address_is_the_row_major_position", (const void*)&o(I.value, J.value) == (const void*)(out + I.value * D1 + J.value), D0, D1, I.value, J.value); }); }); }
+}
+template void ob_c13_rebuild_2d<2,3>(const long*, const size_t*, long*);
+template void ob_c13_rebuild_2d<3,2>(const long*, const size_t*, long*);
+template void ob_c13_rebuild_2d<1,4>(const long*, const size_t*, long*);
+void ob_c13_rebuild_3d(const long* data, const size_t* shape_ptr)
+{
+    ASSUME(shape_ptr[0] == 2 && shape_ptr[1] == 3 && shape_ptr[2] == 2);
+    auto ma = na::create_array<3>(data, shape_ptr, 3);
+    OBLIGE("C13.rebuild.create_array.has_value", nm::has_value(ma), 232);
+    auto a = nm::unwrap(ma);
+    auto shp = nm::shape(a);
+    OBLIGE("C13.rebuild.create_array.shape_is_the_given_one", (size_t)nm::len(shp) == 3 && (size_t)nm::at(shp,0) == 2 && (size_t)nm::at(shp,1) == 3 && (size_t)nm::at(shp,2) == 2, 232);
+    for_<2>([&](auto I){ for_<3>([&](auto J){ for_<2>([&](auto K){ OBLIGE("C13.rebuild.create_array.element_is_the_row_major_position", (long)a(I.value, J.value, K.value) == data[I.value * 6 + J.value * 2 + K.value], 232, I.value, J.value, K.value); }); }); });
+}
 void ob_c13_negctl(float* out, const std::array<size_t,1>& shape_, const na::ndarray_t<std::array<float,8>,std::array<size_t,1>>& result, const ks& t_, const ks& b_, const ks& s_, size_t k)
 {
     const auto shape = shape_; const ks t = t_, b = b_, s = s_;
